@@ -114,7 +114,7 @@ func checkMinSelection(w *core.World, r *core.Report, rule string, fn *ssa.Funct
 		// phis fed from the true / false successor regions
 		for si := 0; si < 2; si++ {
 			succ := iff.Block().Succs[si]
-			for _, b := range fn.Blocks {
+			for _, b := range core.Blocks(fn) {
 				for _, instr := range b.Instrs {
 					phi, ok := instr.(*ssa.Phi)
 					if !ok {
@@ -201,6 +201,7 @@ func checkOrder(w *core.World, r *core.Report, rule string, fn *ssa.Function, ea
 // optsField returns the value stored into field `name` of the cache.Opts literal passed to call c (nil = field not set).
 func optsField(c ssa.CallInstruction, name string) (ssa.Value, *ssa.Alloc) {
 	var al *ssa.Alloc
+	var site *ssa.Call // the Opts value is built by a (virtually inlined) helper called right here
 	for _, a := range c.Common().Args {
 		if core.TypeKey(a.Type()) != "cache.Opts" {
 			continue
@@ -208,6 +209,9 @@ func optsField(c ssa.CallInstruction, name string) (ssa.Value, *ssa.Alloc) {
 		if x, ok := a.(*ssa.Alloc); ok {
 			al = x
 		} else {
+			if sc, ok := a.(*ssa.Call); ok && core.InlinedCallee(sc) != nil {
+				site = sc
+			}
 			for _, o := range core.Origins(a) {
 				if x, ok := o.(*ssa.Alloc); ok {
 					al = x
@@ -225,6 +229,14 @@ func optsField(c ssa.CallInstruction, name string) (ssa.Value, *ssa.Alloc) {
 		}
 		for _, r2 := range *fa.Referrers() {
 			if st, ok := r2.(*ssa.Store); ok {
+				// a parameter of the helper stands for the argument at THIS call of the helper
+				if p, isP := st.Val.(*ssa.Parameter); isP && site != nil && p.Parent() == core.InlinedCallee(site) {
+					for i, q := range p.Parent().Params {
+						if q == p && i < len(site.Call.Args) {
+							return site.Call.Args[i], al
+						}
+					}
+				}
 				return st.Val, al
 			}
 		}
